@@ -1225,7 +1225,9 @@ def replay(ctx, payload):
 
 LEVEL_TEXT = ("Lean 4 theorems (all dimensions, band widths, masks, all field elements) about executable models of CovMat "
               "packed storage, Cluster::activeCov/scaleCov, the band LDL'/Cholesky kernels (dense and block-diagonal) and the "
-              "<cov-mat> accounting of GKFparser; whitening (homogenisation) proved over Mathlib matrices; models tied to the C++ "
+              "<cov-mat> accounting of GKFparser, and the whole Homogenization::run on a multi-block AdjInputData (replicate, "
+              "cholDec, UpperBlockDiagonal, rhs sweep, counting, perm/invp/T gather, per-column substitution, scatter without "
+              "exact zeros); whitening (homogenisation) proved over Mathlib matrices; models tied to the C++ "
               "by differential correspondence (exact rationals / doubles) and a property oracle on the implementation.")
 LEVEL_NOTE = ("Trusted: Lean kernel, statements in Props/C10.lean, harness/c10_cov.cpp, generators and tolerances. IEEE rounding is "
               "not modelled (theorems are over ordered fields; Float runs are compared with tolerance 1e-9).")
@@ -1235,6 +1237,10 @@ TRUSTED = ["harness/c10_cov.cpp (test Observation type for Cluster<Observation>)
 MODELLED = ["IEEE rounding in the Cholesky kernels (proved over ordered fields with sqrt; executed at Rat and Float)",
             "toDouble / toIndex / white-space splitting of <cov-mat> character data (input abstraction, owned by C11)",
             "Cluster::act_dim caching (activeCov model recomputes it; update() is called by every caller chain)",
-            "BlockDiagonal::cholDec / UpperBlockDiagonal / Homogenization sweep: modelled with raw offsets and compared with the "
-            "C++ and with the dense path; see notes/reports/C10.md for which refinement lemmas are proved"]
-ASSUMPTIONS = ["covariance blocks have 0 <= band < dim (established by GKFparser::process_cov and Cluster::activeCov, proved)"]
+            "BlockDiagonal::cholDec / UpperBlockDiagonal / Homogenization::run: modelled with raw offsets on one buffer and "
+            "compared with the C++ and with the dense path; see notes/reports/C10.md (Round 3) for the refinement lemmas proved; "
+            "Homogenization's ready/reset caching is not modelled (one call of run)"]
+ASSUMPTIONS = ["covariance blocks have 0 <= band < dim (established by GKFparser::process_cov and Cluster::activeCov, proved)",
+               "Homogenization::run: design matrix completely built, rows = sum of block dims = rhs size, column indices in "
+               "1..cols; theorem additionally: no repeated column index inside a sparse row (the C++ overwrites T(i,perm[c]) "
+               "in correlated blocks; modelled and compared, excluded from the theorem)"]
